@@ -125,6 +125,8 @@ class VariableElimination(Inference):
         elif isinstance(elimination_order, str) and isinstance(
             self.model, BayesianNetwork
         ):
+            if not to_eliminate:
+                return []
             heuristic_dict = {
                 "weightedminfill": WeightedMinFill,
                 "minneighbors": MinNeighbors,
@@ -556,6 +558,11 @@ class VariableElimination(Inference):
             raise ValueError(
                 f"Can't have the same variables in both `variables` and `evidence`. Found in both: {common_vars}"
             )
+
+        # The MAP over all the unobserved variables of the model.
+        if not variables and virtual_evidence is None:
+            self._initialize_structures()
+            variables = [var for var in self.cardinality if var not in evidence]
 
         if isinstance(self.model, BayesianNetwork) and (virtual_evidence is not None):
             # The engine works on an augmented copy for this call only.
@@ -1224,8 +1231,10 @@ class BeliefPropagation(Inference):
             )
 
         # TODO:Check the note in docstring. Change that behavior to return the joint MAP
-        if not variables:
-            variables = list(self.model.nodes())
+        # The MAP over all the unobserved variables of the model.
+        if not variables and virtual_evidence is None:
+            self._initialize_structures()
+            variables = [var for var in self.cardinality if var not in evidence]
 
         # Make a copy of the original model and then replace self.model with it later.
         orig_model = self.model.copy()
